@@ -23,6 +23,12 @@ CHECKS = {
          "Seeded random search over multimap operation sequences x 3 key/value families x page/region/cache sizes, with value counts and sizes steered across the inline/subtree limit in both directions; every return value, MultimapValue::len during consumption, and full scans compared with the model after every transaction and reopen.",
          "Trusts the harness model; inline/subtree classification for the non-triviality count is a size estimate.",
          "DESIGN.md 4/C09"),
+ "C15": ("exploration", "property-based testing of pure functions: generated pairs/triples of values of 33 key types vs Rust Ord, round-trip and separator contract; exhaustive enumeration of small domains",
+         "types", "Seeded generation of value triples for every built-in key type (biased to extremes, shared prefixes, UTF-8 boundaries) plus complete enumeration of small domains; compare == Ord, antisymmetry, transitivity, round-trip, separator validity (length, decodes, re-encodes, a <= s < b).",
+         "Reference order is Rust's Ord on a mirrored owned value; uuid/chrono types not covered.", "DESIGN.md 4/C15"),
+ "C18": ("exploration", "model-based property testing: generated cursor scripts vs sorted-vector + gap-index model",
+         "tableops", "Generated cursor scripts (seek with every bound kind, peek/next/prev, inserts in both directions with fitting/unordered/equal keys, long buffered runs, removals, close/drop, commit/reopen, read-only cursors) compared step by step with a sorted vector and a gap index, and by full scans after every close.",
+         "Two key families (u64, &str) with byte values.", "DESIGN.md 4/C18"),
  "C01": ("fault_enumeration", "crash-state enumeration over recorded histories: proptest-generated histories on a recording backend, enumerated/sampled subsets and tears of unsynced writes at every storage operation, nested crashes in recovery; oracle = reference model's commit points",
          "hist+crashsim",
          "Generated histories x crash instants x kept/dropped/torn subsets of the writes since the last sync (all 2^W subsets for small W) x a second crash inside recovery; every recovered image must open and equal exactly one commit point in [last acknowledged durable, last requested]. Enumeration is complete only for the small-W instants; everything else is a seeded sample.",
